@@ -88,7 +88,7 @@ impl Ret {
             Ret::Data(Some(s)) => json!(s),
             Ret::Id(i) => json!(i),
             Ret::Ok => json!("ok"),
-            Ret::Count(c) => json!(c),
+            Ret::Count(c) => json!(format!("count:{c}")),
             Ret::Err(_) => json!("err"),
             Ret::Panic(_) => json!("panic"),
         }
